@@ -65,6 +65,9 @@ func rndNonce(rng *Rng) uint64 {
 func runCkptCase(seed uint64) (V, V) {
 	rng := &Rng{s: seed}
 	gid := rndGravityID(rng)
+	if rng.Chance(4, 5) {
+		gid = "testgravityid" // one deployment has one gravity id shared by all its chains
+	}
 	switch rng.Intn(3) {
 	case 0:
 		n := rng.Intn(12)
